@@ -250,10 +250,10 @@ func DrawHistory(r *Rng, cfg HistConfig) (*Scenario, *histWorld) {
 				planted[p] = true
 				ops = append(ops, Op{Kind: "edit", Path: p, Content: fmt.Sprintf("note %d\n", w.edits)})
 			case 3:
-				for p := range planted {
+				if ks := sortedKeys(planted); len(ks) > 0 {
+					p := ks[r.Intn(len(ks))]
 					delete(planted, p)
 					ops = append(ops, Op{Kind: "delete", Path: p})
-					break
 				}
 			}
 		case r.P(cfg.PStale):
